@@ -17,7 +17,7 @@ META = dict(
                '(sweep, random nested programs, real threads under a deterministic event scheduler) + direct restore/effective/no-leak oracle'),
     design_ref='DESIGN.md §5 C17',
     level_text=('Refinement theorem: for every program the model of the code yields exactly the observations and exception behaviour of a store-free specification in which scopes are lexical and getters follow the documented nesting rules. '
-                'Theorems (any well-nested program over all 19 managers, any depth, normal and exceptional exits, failing enters): the state after equals the state before '
+                'Theorems (any well-nested program over all 22 managers — the 19 library managers plus the three parts DynamicEvaluationContext.collect/apply are composed of — any depth, normal and exceptional exits, failing enters): the state after equals the state before '
                 '(syntactically for the value scopes, observationally where thread_local_pop / contextual_scope leave an empty container behind); inside a scope the getter returns the '
                 'documented nesting rule; for every interleaving of machine steps of any number of threads a thread that uses thread-local managers behaves exactly as when run alone; '
                 'only dynamic_evaluate(per_thread=False) and load_types_for_deserialization touch the process-wide store.'),
@@ -38,12 +38,15 @@ GENERATED = {'Gen/ScopeDefs.v': scope_defs.translate}
 # ------------------------------------------------------------------------------------------------
 # pools (JSON-able ids <-> real objects)
 CMS = ['flag', 'perm', 'str', 'repr', 'view', 'ctx', 'contextual', 'detour', 'wrappers', 'timeit', 'dyn', 'dyng', 'loadtypes']
+# user-level dynamic evaluation: DynamicEvaluationContext.collect() / .apply(); the model composes them (see wire_prog)
+COMPOSITE = ['collect', 'apply']
+N_PT_CONTEXTS = 2                    # contexts 0..1 are per-thread, 2..3 process-wide
 CM_TAG = {n: i for i, n in enumerate(CMS)}
-GETTERS = ['flag', 'perm', 'str', 'repr', 'view', 'ctx', 'contextual', 'detour', 'timeit', 'dyn', 'loadtypes']
+GETTERS = ['flag', 'perm', 'str', 'repr', 'view', 'ctx', 'contextual', 'detour', 'timeit', 'dyn', 'loadtypes', 'dynstack', 'dyngstack']
 G_TAG = {n: i for i, n in enumerate(GETTERS)}
 GETTER_OF = dict(flag='flag', perm='perm', str='str', repr='repr', view='view', ctx='ctx', contextual='contextual', detour='detour',
-                 wrappers='detour', timeit='timeit', dyn='dyn', dyng='dyn', loadtypes='loadtypes')
-PROCESS_WIDE = {'dyng', 'loadtypes'}
+                 wrappers='detour', timeit='timeit', dyn='dyn', dyng='dyn', loadtypes='loadtypes', collect='dyn', apply='dyn')
+PROCESS_WIDE = {'dyng', 'loadtypes', 'collect', 'apply'}
 KW_NAMES = dict(str=['compact', 'verbose', 'hide_default_values', 'hide_missing_values'],
                 repr=['compact', 'verbose', 'hide_default_values', 'hide_missing_values'],
                 view=['enable_summary_tooltip', 'collapse_level', 'uncollapse', 'key_style'],
@@ -80,10 +83,11 @@ def pool():
   types = [type(TYPE_NAMES[0], (), {}), type(TYPE_NAMES[1], (), {}), type(TYPE_NAMES[0], (), {})]
   fns = [None, (lambda x: 1), (lambda x: 2), (lambda x: 3)]
   shared = [py_value(t, None) for t in SHARED_TEMPLATES]
+  contexts = {}
   _POOL.update(pg=pg, flags=flags, thread_local=thread_local, contextual=contextual, formatting=formatting, timing=timing,
                error_utils=error_utils, json_conversion=json_conversion, permissions=permissions, execution=execution,
                class_detour=class_detour, hyper_base=hyper_base, dynamic_evaluation=dynamic_evaluation, views_base=views_base,
-               class_wrapper=class_wrapper, shared=shared, classes=classes, class_id={c: i for i, c in enumerate(classes)}, types=types,
+               class_wrapper=class_wrapper, shared=shared, contexts=contexts, classes=classes, class_id={c: i for i, c in enumerate(classes)}, types=types,
                type_id={c: i for i, c in enumerate(types)}, fns=fns, fn_id={id(f): i for i, f in enumerate(fns) if f is not None})
   return _POOL
 
@@ -142,7 +146,7 @@ def wire_arg(cm, arg):
     return V_dict([(5 + i, 8 + i) for i in arg])
   if kind == 'loadtypes':
     return V_dict(py_dict_pairs([([0, 1, 0][t], t) for t in arg]))
-  raise ValueError(cm)
+  raise RuntimeError(cm)
 
 def wire_cm(cm):
   return [0, cm[1]] if isinstance(cm, list) else [CM_TAG[cm]]
@@ -155,8 +159,16 @@ def wire_prog(p):
   if t == 'raise': return [2]
   if t == 'seq': return [3, wire_prog(p[1]), wire_prog(p[2])]
   if t == 'catch': return [4, wire_prog(p[1])]
+  if t == 'scope' and p[1] in COMPOSITE:
+    # collect()/apply() of context i = the mixing guard, then dynamic_evaluate(bound method), then the stack of active contexts
+    i = p[2]
+    pt = i < N_PT_CONTEXTS
+    fn = (100 if p[1] == 'collect' else 200) + i
+    inner = [5, [14 if pt else 15], V_dict([(0, i)]), wire_prog(p[3])]
+    mid = [5, [CM_TAG['dyn' if pt else 'dyng']], V_atom(fn), inner]
+    return [5, [13], V_atom(bool(pt)), mid]
   if t == 'scope': return [5, wire_cm(p[1]), wire_arg(p[1], p[2]), wire_prog(p[3])]
-  raise ValueError(p)
+  raise RuntimeError(p)
 
 def seq(*ps):
   ps = [p for p in ps if p is not None]
@@ -172,7 +184,8 @@ def cm_name(cm, info):
     return info['flags'][cm[1]]['scope']
   return dict(perm='permission', str='str_format', repr='repr_format', view='view_options', ctx='context', contextual='contextual_override',
               detour='detour', wrappers='apply_wrappers', timeit='timeit', dyn='dynamic_evaluate(per_thread=True)',
-              dyng='dynamic_evaluate(per_thread=False)', loadtypes='load_types_for_deserialization')[cm]
+              dyng='dynamic_evaluate(per_thread=False)', loadtypes='load_types_for_deserialization',
+              collect='DynamicEvaluationContext.collect', apply='DynamicEvaluationContext.apply')[cm]
 
 def prog_stats(p, depth=0, under_exc=False):
   """(max scope depth, number of scopes, scopes left by an exception, managers used)"""
@@ -213,6 +226,7 @@ class Real:
     self.key_kind[('tls', al['k_view_options'])] = 'stack:view'
     self.key_kind[('tls', al['k_timing'])] = 'timer'
     self.key_kind[('tls', info['dyn_key'])] = 'fn'
+    self.key_kind[('tls', info.get('dynstack_key', 'dynamic_evaluation_stack'))] = 'stack:dynctx'
     for ns, s, ident in info['keys']:
       if ns == 'contextual': self.key_kind[(ns, s)] = 'contextual'
       if ns == 'detour': self.key_kind[(ns, s)] = 'stack:detour'
@@ -255,7 +269,29 @@ class Real:
       return P['dynamic_evaluation'].dynamic_evaluate(P['fns'][arg or 0], per_thread=False)
     if k == 'loadtypes':
       return P['json_conversion'].JSONConvertible.load_types_for_deserialization(*[P['types'][t] for t in arg])
-    raise ValueError(cm)
+    if k in COMPOSITE:
+      c = self.context(arg)
+      return c.collect() if k == 'collect' else c.apply([])
+    raise RuntimeError(cm)
+
+  def context(self, i):
+    """DynamicEvaluationContext number i: per-thread ones belong to the thread, process-wide ones to the process"""
+    D = self.P['dynamic_evaluation'].DynamicEvaluationContext
+    if i < N_PT_CONTEXTS:
+      pool_ = self.timers.__dict__.setdefault('contexts', {})
+      if i not in pool_:
+        pool_[i] = D(per_thread=True)
+      return pool_[i]
+    if i not in self.P['contexts']:
+      self.P['contexts'][i] = D(per_thread=False)
+    return self.P['contexts'][i]
+
+  def context_id(self, c):
+    for pool_ in (self.timers.__dict__.get('contexts', {}), self.P['contexts']):
+      for i, x in pool_.items():
+        if x is c:
+          return i
+    return -995
 
   last_kw = None
   timers = threading.local()
@@ -287,7 +323,11 @@ class Real:
   def perm_bits(self, p):
     return None if p is None else int(p.value)
   def fn_id(self, f):
-    return None if f is None else self.P['fn_id'][id(f)]
+    if f is None:
+      return None
+    if getattr(f, '__self__', None) is not None and getattr(f, '__name__', '') in ('add_decision_point', 'evaluate'):
+      return (100 if f.__name__ == 'add_decision_point' else 200) + self.context_id(f.__self__)
+    return self.P['fn_id'].get(id(f), -994)
   def class_pairs(self, d):
     return [(self.P['class_id'][s], self.P['class_id'][t]) for s, t in d.items()]
   def type_pairs(self, d):
@@ -324,13 +364,19 @@ class Real:
     if k == 'loadtypes':
       st = P['json_conversion'].JSONConvertible._TYPE_REGISTRY._ondemand_registry_stack
       return self.type_pairs(st[-1]) if st else []
-    raise ValueError(g)
+    if k == 'dynstack':
+      return [self.context_id(c) for c in (P['thread_local'].thread_local_get(self.info.get('dynstack_key', 'dynamic_evaluation_stack'), None) or [])]
+    if k == 'dyngstack':
+      return [self.context_id(c) for c in P['dynamic_evaluation']._dynamic_evaluation_stack._global_stack]
+    raise RuntimeError(g)
 
   def observe(self, g):
     k = g[0] if isinstance(g, list) else g
     v = self.get(g)
     if k in ('flag', 'perm', 'timeit', 'dyn'):
       return V_atom(v)
+    if k in ('dynstack', 'dyngstack'):
+      return V_stack([[(0, i)] for i in v])
     return V_dict(v)
 
   def all_getters(self):
@@ -409,6 +455,9 @@ class Real:
     out['context_a'] = tryv(lambda: ev('a'))
     out['constructed'] = tryv(lambda: [self.P['class_id'].get(type(c()), -1) for c in self.P['classes'][:8]])
     def oneof():
+      f = P['hyper_base'].get_dynamic_evaluate_fn()
+      if getattr(f, '__self__', None) is not None:
+        return 'context'          # a DynamicEvaluationContext would register / consume a decision point: not probed
       r = pg.oneof([10, 20])
       return r if isinstance(r, int) else 'OneOf'
     out['oneof'] = tryv(oneof)
@@ -441,7 +490,7 @@ class Real:
       out['functor_called'] = bool(flag('auto_call_functors', None))
       dm = dict(snap['"detour"'])
       out['constructed'] = [dm.get(i, i) for i in range(8)]
-      out['oneof'] = snap['"dyn"'] if snap['"dyn"'] is not None else 'OneOf'
+      out['oneof'] = ('context' if snap['"dyn"'] >= 100 else snap['"dyn"']) if snap['"dyn"'] is not None else 'OneOf'
     if quiet('tc'):
       out['bad_value'] = 'TypeError' if tc else 'ok'
     if quiet('partial'):
@@ -484,9 +533,12 @@ class Real:
       elif kind.startswith('stack:'):
         if not v: out.append([]); continue
         sub = kind[6:]
-        w = V_stack([self.class_pairs(d) if sub == 'detour' else self.kw_pairs(sub, d) for d in v])
+        if sub == 'dynctx':
+          w = V_stack([[(0, self.context_id(c))] for c in v])
+        else:
+          w = V_stack([self.class_pairs(d) if sub == 'detour' else self.kw_pairs(sub, d) for d in v])
       else:
-        raise ValueError(kind)
+        raise RuntimeError(kind)
       out.append([w])
     return out
 
@@ -494,11 +546,15 @@ class Real:
     P = self.P
     g = P['hyper_base']._global_dynamic_evaluate_fn
     st = P['json_conversion'].JSONConvertible._TYPE_REGISTRY._ondemand_registry_stack
-    return [[] if g is None else [V_atom(self.fn_id(g))], [] if not st else [V_stack([self.type_pairs(d) for d in st])]]
+    gs = P['dynamic_evaluation']._dynamic_evaluation_stack._global_stack
+    return [[] if g is None else [V_atom(self.fn_id(g))], [] if not st else [V_stack([self.type_pairs(d) for d in st])],
+            [] if not gs else [V_stack([[(0, self.context_id(c))] for c in gs])]]
 
   def reset_globals(self):
     P = self.P
-    dirty = P['hyper_base']._global_dynamic_evaluate_fn is not None or bool(P['json_conversion'].JSONConvertible._TYPE_REGISTRY._ondemand_registry_stack)
+    gs = P['dynamic_evaluation']._dynamic_evaluation_stack._global_stack
+    dirty = P['hyper_base']._global_dynamic_evaluate_fn is not None or bool(P['json_conversion'].JSONConvertible._TYPE_REGISTRY._ondemand_registry_stack) or bool(gs)
+    del gs[:]
     P['hyper_base']._global_dynamic_evaluate_fn = None
     del P['json_conversion'].JSONConvertible._TYPE_REGISTRY._ondemand_registry_stack[:]
     return dirty
@@ -529,12 +585,12 @@ class Interp:
     elif t == 'catch':
       self.ncatch += 1
       if self.ncatch % 2 == 0:
-        with self.real.P['error_utils'].catch_errors([Boom, AssertionError]):
+        with self.real.P['error_utils'].catch_errors([Boom, AssertionError, ValueError]):
           self.run(p[1])
       else:
         try:
           self.run(p[1])
-        except (Boom, AssertionError):
+        except (Boom, AssertionError, ValueError):
           pass
     elif t == 'scope':
       self.gate()
@@ -544,13 +600,13 @@ class Interp:
         finally:
           self.gate()
     else:
-      raise ValueError(p)
+      raise RuntimeError(p)
   def top(self, p):
     """-> exception flag as the model prints it (0/1), or (3 name) for an exception the model cannot produce"""
     try:
       self.run(p)
       return 0
-    except (Boom, AssertionError):
+    except (Boom, AssertionError, ValueError):
       return 1
     except Exception as e:    # pylint: disable=broad-except
       return [3] + [ord(c) for c in type(e).__name__]
@@ -645,14 +701,31 @@ def deep_merge_pairs(old, new):
   return [(k, v) for k, v in out]
 
 
+def local_fns(stack):
+  """the per-thread evaluate functions of the enclosing scopes of this thread, outermost first"""
+  out = []
+  for e in stack:
+    if e[0] == 'dyn':
+      out.append(e[1])
+    elif e[0] in COMPOSITE and e[1] < N_PT_CONTEXTS:
+      out.append((100 if e[0] == 'collect' else 200) + e[1])
+  return out
+
+
 def expected_inside(kind, arg, before, stack):
   """The documented nesting rule: what the manager's getter must return right after entering."""
+  if kind in COMPOSITE:
+    fn = (100 if kind == 'collect' else 200) + arg
+    if arg < N_PT_CONTEXTS:
+      return fn
+    mine = local_fns(stack)                               # a per-thread function of this thread hides the process-wide one
+    return mine[-1] if mine else fn
   if kind == 'timeit':
     return arg % 10
   if kind in ('flag', 'dyn'):
     return arg                                            # innermost wins
   if kind == 'dyng':
-    mine = [e[1] for e in stack if e[0] == 'dyn']           # a per-thread function of this thread takes precedence
+    mine = local_fns(stack)           # a per-thread function of this thread takes precedence
     return mine[-1] if mine else arg
   if kind == 'perm':
     return before if before is not None else arg          # outermost wins
@@ -678,7 +751,7 @@ def expected_inside(kind, arg, before, stack):
     return list(d.items())
   if kind == 'loadtypes':
     d = dict(before); d.update(py_dict_pairs([([0, 1, 0][t], t) for t in arg])); return list(d.items())
-  raise ValueError(kind)
+  raise RuntimeError(kind)
 
 
 class Oracle:
@@ -708,7 +781,7 @@ class Oracle:
     if t == 'catch':
       try:
         self.run(p[1], stack)
-      except (Boom, AssertionError):
+      except (Boom, AssertionError, ValueError):
         pass
       return
     cm, arg, body = p[1], p[2], p[3]
@@ -718,6 +791,10 @@ class Oracle:
     gk = json.dumps(g)
     before = real.snapshot()
     exp = expected_inside(kind, arg, before[gk], stack)
+    also = {}        # further getters the manager is documented to change: getter key -> expected value
+    if kind in COMPOSITE:
+      sk = '"dynstack"' if arg < N_PT_CONTEXTS else '"dyngstack"'
+      also[sk] = before[sk] + [arg]
     entered = False
     exc = None
     inside = None
@@ -732,8 +809,14 @@ class Oracle:
         if inside[gk] != exp:
           self.hit('C17/effective/%s/getter-returns-%s' % (name, self.describe_value(inside[gk], exp, before[gk], self.fresh[gk])),
                    'inside `with %s(%r)` (enclosing scopes %r) the getter returns %r, the documented nesting rule gives %r' % (name, arg, [(e[2], e[1]) for e in stack], inside[gk], exp))
+        if kind in COMPOSITE and (before['"dyngstack"'] if arg < N_PT_CONTEXTS else before['"dynstack"']):
+          self.hit('C17/mixing-not-refused/%s' % name, '%s(%r) was entered although a %s context is active (documented: nested contexts must be all per-thread '
+                   'or all process-wide, ValueError)' % (name, arg, 'process-wide' if arg < N_PT_CONTEXTS else 'per-thread'))
+        for k2, want in also.items():
+          if inside[k2] != want:
+            self.hit('C17/effective/%s/%s' % (name, k2.replace('"', '')), 'inside `with %s(%r)` the getter %s returns %r instead of %r' % (name, arg, k2, inside[k2], want))
         for k2 in before:
-          if k2 != gk and inside[k2] != before[k2]:
+          if k2 != gk and k2 not in also and inside[k2] != before[k2]:
             self.hit('C17/interference/%s/changes-%s' % (name, k2), 'entering %s changed the unrelated getter %s from %r to %r' % (name, k2, before[k2], inside[k2]))
         self.run(body, stack + [(kind, arg, name)])
     except BaseException as e:   # pylint: disable=broad-except
@@ -741,10 +824,14 @@ class Oracle:
     after = real.snapshot()
     how = 'normally' if exc is None else ('by exception' if entered else 'because entering failed')
     if not entered:
-      allowed = kind == 'dyn' and isinstance(exc, AssertionError) and real.P['hyper_base']._global_dynamic_evaluate_fn is not None
+      per_thread = kind == 'dyn' or (kind in COMPOSITE and arg < N_PT_CONTEXTS)
+      allowed = per_thread and isinstance(exc, AssertionError) and real.P['hyper_base']._global_dynamic_evaluate_fn is not None
+      if kind in COMPOSITE and isinstance(exc, ValueError):
+        # documented: nested contexts must be all per-thread or all process-wide
+        allowed = bool(before['"dyngstack"']) if per_thread else bool(before['"dynstack"'])
       if not allowed:
         self.hit('C17/enter-fails/%s/%s' % (name, type(exc).__name__), 'entering %s(%r) raised %r' % (name, arg, exc))
-    elif exc is not None and not isinstance(exc, Boom) and not (isinstance(exc, AssertionError) and self.expected_assert(body)):
+    elif exc is not None and not isinstance(exc, Boom) and not (isinstance(exc, (AssertionError, ValueError)) and self.expected_assert(body)):
       self.hit('C17/exit-raises/%s/%s' % (name, type(exc).__name__), 'leaving %s(%r) raised %r' % (name, arg, exc))
     if kwrec is not None and kwrec[0] != kwrec[1]:
       self.hit('C17/argument-mutated/%s' % name, 'the dict passed to %s(%r) was changed by the library (or by a scope nested in it): %r -> %r'
@@ -772,7 +859,7 @@ class Oracle:
     """An AssertionError may legitimately escape a body that tries to enter a per-thread dynamic_evaluate under a process-wide one."""
     t = body[0]
     if t == 'seq': return self.expected_assert(body[1]) or self.expected_assert(body[2])
-    if t == 'scope': return cm_kind(body[1]) == 'dyn' or self.expected_assert(body[3])
+    if t == 'scope': return cm_kind(body[1]) in ('dyn', 'collect', 'apply') or self.expected_assert(body[3])
     return False
 
 
@@ -784,7 +871,7 @@ def oracle_single(real, prog, behaviour=True):
     o.check_behaviour(o.fresh, 'in a fresh thread')
     try:
       o.run(prog, [])
-    except (Boom, AssertionError):
+    except (Boom, AssertionError, ValueError):
       pass
     end = real.snapshot()
     if not o.tainted:
@@ -907,7 +994,8 @@ def gen_arg(rng, kind):
   if kind == 'timeit': return rng.randrange(3) + (10 if rng.random() < 0.5 else 0)
   if kind in ('dyn', 'dyng'): return rng.choice([None, 1, 2, 3])
   if kind == 'loadtypes': return [rng.randrange(3) for _ in range(rng.randint(0, 3))]
-  raise ValueError(kind)
+  if kind in COMPOSITE: return rng.randrange(4)
+  raise RuntimeError(kind)
 
 SWEEP_POOL = dict(
     flag=[True, False, None], perm=[0, 3, 255],
@@ -919,11 +1007,11 @@ SWEEP_POOL = dict(
     ctx=[[], [[0, 1]], [[0, 2], [1, None]], [[1, {'d': [[0, True]]}]], [[1, {'shared': 0}]]],
     contextual=[[[0, 1, False, False]], [[0, 2, True, False]], [[0, 3, False, True], [1, 4, True, True]]],
     detour=[[[0, 1]], [[0, 2], [1, 0]], [[2, 0], [0, 3]]], wrappers=[[0], [1, 2]], timeit=[0, 1, 10, 11],
-    dyn=[None, 1, 2], dyng=[None, 1, 2], loadtypes=[[], [0], [2, 1]])
-RELATED = dict(dyn=['dyn', 'dyng'], dyng=['dyng', 'dyn'], detour=['detour', 'wrappers'], wrappers=['wrappers', 'detour'])
+    dyn=[None, 1, 2], dyng=[None, 1, 2], loadtypes=[[], [0], [2, 1]], collect=[0, 2], apply=[1, 2])
+RELATED = dict(dyn=['dyn', 'dyng'], dyng=['dyng', 'dyn'], collect=['collect', 'apply', 'dyn', 'dyng'], apply=['apply', 'collect', 'dyn', 'dyng'], detour=['detour', 'wrappers'], wrappers=['wrappers', 'detour'])
 
 def all_cms(nflags):
-  return [['flag', i] for i in range(nflags)] + CMS[1:]
+  return [['flag', i] for i in range(nflags)] + CMS[1:] + COMPOSITE
 def getter_for(cm):
   return ['flag', cm[1]] if isinstance(cm, list) else GETTER_OF[cm]
 
@@ -1065,7 +1153,9 @@ FALLBACK_INFO = dict(
     keys=[('tls', k, '') for k in ['_enable_change_notification', '_enable_origin_tracking', '_enable_type_check', '_accessor_writable', '_sealed',
                                    '_allow_partial', '_allow_auto_call_functors', '_str_format_kwargs', '_repr_format_kwargs', '__code_run_permission__',
                                    '__code_run_context__', '__view_options__', '__timing_context__']]
-         + [('contextual', '__contextual_overrides__', 'k_contextual'), ('detour', 'detour_stack', 'k_detour'), ('tls', 'dynamic_evaluate_fn', '')])
+         + [('contextual', '__contextual_overrides__', 'k_contextual'), ('detour', 'detour_stack', 'k_detour'), ('tls', 'dynamic_evaluate_fn', ''),
+            ('tls', 'dynamic_evaluation_stack', 'k_dynstack')],
+    dynstack_key='dynamic_evaluation_stack')
 
 def get_info(ctx=None):
   try:
@@ -1152,7 +1242,7 @@ def run(ctx):
     if r < 0.5:
       sub = [c for c in cms if cm_kind(c) not in PROCESS_WIDE]                # thread-local managers only
     elif r < 0.75:
-      sub = cms
+      sub = [c for c in cms if c not in COMPOSITE]      # collect()/apply() enter as ONE event but are three scopes in the model: single-thread cases only
     else:
       sub = [c for c in cms if cm_kind(c) in ('dyn', 'dyng', 'loadtypes', 'flag', 'contextual')]
     same = rng.sample(sub, min(len(sub), rng.choice([1, 2, 3])))               # all threads fight over the same few managers
